@@ -57,5 +57,12 @@ fn run_ops(ctx: TestContext, ops: &[Op]) {
 fn main() {
     let s = std::env::var("VERIF_SCENARIO").unwrap();
     let ops = parse_ops(s.as_bytes(), &mut 0);
+    // VERIF_PARALLEL=N: the scenario runs in N threads of this process at the same time (what `cargo test` does with several tests)
+    if let Some(n) = std::env::var("VERIF_PARALLEL").ok().and_then(|n| n.parse::<usize>().ok()) {
+        let barrier = std::sync::Arc::new(std::sync::Barrier::new(n));
+        let hs: Vec<_> = (0..n).map(|_| { let ops = ops.clone(); let b = barrier.clone(); std::thread::spawn(move || { b.wait(); TestRunner::default().build(config(), move |ctx| run_ops(ctx, &ops)); }) }).collect();
+        let failed = hs.into_iter().map(|h| h.join().is_err()).filter(|x| *x).count();
+        std::process::exit(if failed == 0 { 0 } else { 101 });
+    }
     TestRunner::default().build(config(), move |ctx| run_ops(ctx, &ops));
 }
